@@ -23,6 +23,7 @@ import (
 	nodetls "github.com/hashicorp/nodeenrollment/tls"
 	"github.com/hashicorp/nodeenrollment/types"
 	"google.golang.org/protobuf/proto"
+	"google.golang.org/protobuf/types/known/structpb"
 	"pgregory.net/rapid"
 	"verifharness/vkit"
 )
@@ -341,7 +342,14 @@ func TestProp_HonestHistories(t *testing.T) {
 				}
 				opts = append(opts, nodeenrollment.WithExtraAlpnProtos(ex))
 			}
-			switch rapid.SampledFrom([]string{"none", "none", "small", "medium", "large"}).Draw(t, "clientState") {
+			switch rapid.SampledFrom([]string{"none", "none", "empty-struct", "nested", "small", "medium", "large"}).Draw(t, "clientState") {
+			case "empty-struct":
+				// a state structure without fields (it marshals to zero bytes)
+				opts = append(opts, nodeenrollment.WithState(&structpb.Struct{Fields: map[string]*structpb.Value{}}))
+			case "nested":
+				if st := vkit.GenStruct(t, "nestedState"); st != nil {
+					opts = append(opts, nodeenrollment.WithState(st))
+				}
 			case "small":
 				opts = append(opts, nodeenrollment.WithState(vkit.UniqueStruct(n.name)))
 			case "medium":
